@@ -440,6 +440,42 @@ func sequence(c *vk.C, rng *rand.Rand, k int) {
 			}
 		}
 
+		// objects delivered by watches are "returned by the state" too: every few steps a short-lived watch (single-resource: its
+		// initial event; kind: bootstrap contents, then whatever arrives; through the path under test) hands its event objects
+		// (Resource and Old) to the scribbler
+		if s%3 == 2 {
+			wctx, wcancel := context.WithCancel(ctx)
+			wch := make(chan state.Event, 256)
+
+			var werr error
+
+			if rng.IntN(2) == 0 {
+				werr = st.Watch(wctx, ptr, wch)
+			} else {
+				werr = st.WatchKind(wctx, kind, wch, state.WithBootstrapContents(true))
+			}
+
+			if werr == nil {
+				settle()
+
+				for more := true; more; {
+					select {
+					case ev := <-wch:
+						for _, r := range []resource.Resource{ev.Resource, ev.Old} {
+							if r != nil && !resource.IsTombstone(r) {
+								heldObjs = append(heldObjs, r)
+								c.Count("watch_event_objects_held", 1)
+							}
+						}
+					default:
+						more = false
+					}
+				}
+			}
+
+			wcancel()
+		}
+
 		settle()
 
 		// collect replica events (held, never mutated by us)
